@@ -327,7 +327,7 @@ ElispChar(bs, i) ==
        IF SimpleElispEscape(e) < 256 /\ e # DQ THEN ElispCharEnd(bs, SimpleElispEscape(e), i + 2)
        ELSE IF e = 120 THEN
               LET h == HexRun(bs, i + 2) IN
-              IF h = i + 2 THEN (IF h > n THEN Inc ELSE Unspec)
+              IF h = i + 2 THEN Unspec            \* "\x" without digits (also at the end of input): not documented; the crate reads NUL
               ELSE LET cp == HexValue(bs, i + 2, h) IN IF IsScalar(cp) THEN ElispCharEnd(bs, cp, h) ELSE Rej
        ELSE IF IsOctDigit(e) THEN
               LET h == OctRun(bs, i + 1) IN
